@@ -456,6 +456,20 @@ def _(c):
             steps = [np.asarray(x.copy(form="cartesian"), dtype=float)[:3] for x in third.iter(start=d0, stop=d0 + timedelta(seconds=1200), step=timedelta(seconds=600))]
             want = [np.asarray(ref2.propagate(d0 + timedelta(seconds=600 * k)).copy(form="cartesian"), dtype=float)[:3] for k in range(3)]
             c.ensure("orbit_changed_in_place_between_calls.iter", len(steps) == 3 and all(np.linalg.norm(x - y) <= max(tol, 0.05 if prop.startswith("num") else tol) for x, y in zip(steps, want)))
+    if prop != "ephem":
+        # one propagator object serving two orbits, the second one used while an iteration of the first is under way: the iteration goes on with ITS orbit
+        pa, _ = _make(prop)
+        pb, _ = _make(prop)
+        pb[0] = float(pb[0]) * (1.0 + 2e-3)
+        pb.propagator = pa.propagator
+        kw3 = dict(start=d0, stop=d0 + timedelta(seconds=900), step=timedelta(seconds=300))
+        alone3 = [np.asarray(x.copy(form="cartesian"), dtype=float)[:3] for x in _make(prop)[0].iter(**kw3)]
+        got3 = []
+        for k_, x in enumerate(pa.iter(**kw3)):
+            got3.append(np.asarray(x.copy(form="cartesian"), dtype=float)[:3])
+            if k_ == 1:
+                pb.propagate(d0 + timedelta(seconds=50))
+        c.ensure("shared_propagator_used_during_an_iteration", len(got3) == len(alone3) and all(np.linalg.norm(x - y) <= (0.05 if prop.startswith("num") else 1e-6) for x, y in zip(got3, alone3)))
     # two iterations over the same object under way at the same time (consumed alternately): each yields what it yields alone
     kw2 = dict(start=d0, stop=d0 + timedelta(seconds=600), step=timedelta(seconds=120))
     alone = [(p.date._d, round(p.date._s, 6)) for p in src.iter(**kw2)]
